@@ -175,8 +175,11 @@ class Publish:
 
         self.data = data
 
-        # XXX: Use the MutableFileVersion instead.
-        self.datalength = self._node.get_size()
+        # The length of the version being updated comes from its verinfo
+        # (as surveyed by the servermap update for this operation), not
+        # from the node's cached size, which modify() and update() do not
+        # refresh.
+        self.datalength = version[4]
         if data.get_size() > self.datalength:
             self.datalength = data.get_size()
 
